@@ -13,7 +13,7 @@
    the entry's abscissae, z_e) followed by, per dimension d, the triples (lambda_d, p, 0) for the rows p of
    I x .. x D_d x .. x I  (D_d = rows of divided_diffs coefficients = finitediff). *)
 From Coq Require Import ZArith NArith List Bool Lia QArith Qcanon Permutation.
-From PS Require Import Arith EvalModel BSpline OFieldKit FitModel C09_LinAlg C09_Penalty C09_Index C09_Glam C09_Kron C09_Top C09_Invariance.
+From PS Require Import Arith EvalModel BSpline OFieldKit FitModel C09_LinAlg C09_Penalty C09_Index C09_Glam C09_Kron C09_Top C09_Invariance C09_Basis.
 Import ListNotations.
 Local Open Scope nat_scope.
 
@@ -201,7 +201,24 @@ Theorem C09_fit_minimises_penalised_objective : forall (dims : list dimspec) (sm
 Proof. exact (fit_minimises_penalised_objective F solve solve_spec). Qed.
 End Solver2.
 
+(* (6) the basis matrices the system is built from: every entry of bsplinebasis (the model of splineutil.c's bsplinebasis over its static
+   bspline(), which since fix 33ef56f skips a term whose denominator vanishes) IS the right-continuous Cox–de Boor function with the
+   0/0 := 0 convention — for EVERY knot vector, repeated knots of any multiplicity included (before the fix a repeated knot made the
+   real function return NaN: former finding D23). [knZ kn] is the knot array read through Z indices (BSpline.Bfun's index type). *)
+Theorem C09_basis_is_cox_de_boor : forall (knots xs : list K) (order r c : nat),
+  r < length xs -> c < length knots - order - 1 ->
+  nth c (nth r (bsplinebasis knots xs order) []) zero
+  = Bfun (knZ (fun i => nth i knots zero)) true order (Z.of_nat c) (nth r xs zero).
+Proof. exact (fit_basis_entry F). Qed.
+
 End C09.
+
+(* (6) on a repeated knot: order 1, knots 0 1 1 2 3, abscissa 3/2: the basis row is 0 1/2 1/2 (the hat function that would span the
+   double knot's empty interval contributes its one live term; nothing is 0/0), and AT the double knot 0 1 0 *)
+Example C09_basis_repeated_knot :
+  bsplinebasis (A := QcA) [Q2Qc 0; Q2Qc 1; Q2Qc 1; Q2Qc 2; Q2Qc 3] [Q2Qc (3 # 2); Q2Qc 1] 1
+  = [[Q2Qc 0; Q2Qc (1 # 2); Q2Qc (1 # 2)]; [Q2Qc 0; Q2Qc 1; Q2Qc 0]] /\ (1 < 2 /\ 2 < 5 - 1 - 1).
+Proof. split; [vm_compute; reflexivity | lia]. Qed.
 
 (* non-vacuity on exact rationals: two data points, one coefficient:  J(c) = (2 - c)^2 + 3 (1 - 2c)^2,
    A = [[13]], r = [8], minimiser 8/13; A is positive definite *)
@@ -288,3 +305,4 @@ Print Assumptions C09_zero_weight_and_order_irrelevant.
 Print Assumptions C09_fit_system_is_normal_system.
 Print Assumptions C09_objective_vocabulary.
 Print Assumptions C09_fit_minimises_penalised_objective.
+Print Assumptions C09_basis_is_cox_de_boor.
